@@ -718,6 +718,7 @@ fn main() {
         "replay" => cmd_replay(&args),
         "digest" => cmd_digest(&args),
         "chunk" => cmd_chunk(&args),
+        "oracle-c09" => engines::c09::oracle_main(),
         "dbg-parse" => engines::dbg_parse(args.seed, args.to),
         "dbg-world" => engines::dbg_world(args.seed, args.from),
         "dbg-c20" => engines::dbg_c20(args.seed, args.from),
